@@ -231,6 +231,25 @@ func runC14(r *Result, d *drv.Driver, tier string, seed int64, replay string) {
 		}
 		cases = append(cases, c)
 	}
+	// replies that are perfectly nested but in which a structure ends before its trailing required items (a batch item with
+	// the Operation only, a header without Batch Count, a message without batch items, ...)
+	for i, op := range []kmip.Enum{kmip.OPERATION_ACTIVATE, kmip.OPERATION_DISCOVER_VERSIONS, kmip.OPERATION_GET} {
+		resp := kmip.Response{Header: kmip.ResponseHeader{Version: kmip.ProtocolVersion{Major: 1, Minor: 4}, TimeStamp: time.Unix(1, 0), BatchCount: 1},
+			BatchItems: []kmip.ResponseBatchItem{{Operation: op, UniqueID: []byte{9}, ResultStatus: kmip.RESULT_STATUS_SUCCESS}}}
+		switch i {
+		case 0:
+			resp.BatchItems[0].ResponsePayload = kmip.ActivateResponse{UniqueIdentifier: "x"}
+		case 1:
+			resp.BatchItems[0].ResponsePayload = kmip.DiscoverVersionsResponse{ProtocolVersions: []kmip.ProtocolVersion{{Major: 1, Minor: 4}}}
+		default:
+			resp.BatchItems[0].ResultStatus, resp.BatchItems[0].ResultReason, resp.BatchItems[0].ResultMessage = kmip.RESULT_STATUS_OPERATION_FAILED, kmip.RESULT_REASON_ITEM_NOT_FOUND, "no"
+		}
+		if b := encodeResponse(resp); b != nil {
+			for _, c := range cutTails(b) {
+				cases = append(cases, tc{op: op, reply: c, kind: "cut-tail", dv: op == kmip.OPERATION_DISCOVER_VERSIONS})
+			}
+		}
+	}
 	// Discover Versions specials: success without payload, payload of another type
 	for _, p := range []interface{}{nil, kmip.ActivateResponse{UniqueIdentifier: "x"}, kmip.DiscoverVersionsResponse{}, kmip.DiscoverVersionsResponse{ProtocolVersions: []kmip.ProtocolVersion{{Major: 1, Minor: 4}}}} {
 		op := kmip.OPERATION_DISCOVER_VERSIONS
@@ -433,17 +452,23 @@ func notASuccessReply(b []byte, op uint32) string {
 	if items != 1 {
 		return fmt.Sprintf("carries %d batch items", items)
 	}
+	hasOp, hasStatus := false, false
 	for _, k := range item.Kids {
 		switch k.Tag {
 		case 0x42005c:
+			hasOp = true
 			if v, ok := u32(k); ok && v != op {
 				return fmt.Sprintf("answers operation %d, not the requested %d", v, op)
 			}
 		case 0x42007f:
+			hasStatus = true
 			if v, ok := u32(k); ok && v != 0 {
 				return fmt.Sprintf("carries result status %d (not Success)", v)
 			}
 		}
+	}
+	if top[0].End == len(b) && (!hasOp || !hasStatus) {
+		return fmt.Sprintf("carries no Operation / no Result Status in its batch item (operation present: %v, status present: %v)", hasOp, hasStatus)
 	}
 	return ""
 }
